@@ -13,7 +13,8 @@ func C04_AppendSample[T signal.SignalTypes]() {
 	w := base.Slice(s, e)
 	// optionally a window of that window (the middle view then has spare capacity behind it)
 	mid := w
-	if vf.Pick("nested", 0, 1) == 1 {
+	nested := vf.Pick("nested", 0, 1) == 1
+	if nested {
 		e2 := vf.Pick("w.e2", 0, e-s)
 		mid = w
 		w = mid.Slice(0, e2)
@@ -55,7 +56,7 @@ func C04_AppendSample[T signal.SignalTypes]() {
 			}
 		}
 		vf.Assert("base-shape", base.Len() == C*K && base.Cap() == C*K)
-		if mid != w {
+		if nested {
 			vf.Assert("other-views-keep-their-length", mid.Len() == midLen)
 		}
 	}
